@@ -179,3 +179,56 @@ Definition pv_nonneg (p : pv) : bool := (0 <=? v_req p) && (0 <=? v_used p) && (
 Definition strategy_valid (s : strategy) : bool :=
   (0 <=? s_cpu_reclaim s) && (0 <=? s_mem_reclaim s) && (-1 <=? s_cpu_thr s) && (-1 <=? s_mem_thr s)
   && (0 <? s_degrade s).
+
+(* ------------------------------------------------------------------------------------------ *)
+(* the mid tier: never negative, never above the threshold percentage of capacity, never above
+   what is reclaimable (static: the static percentage; otherwise min(prod-reclaimable, node
+   unused) clamped at zero plus the unallocated share) *)
+Definition mid_thr_cpu (m : minput) : Z := mul_ratio (m_cap_cpu m) (f_pct (dflt (ms_cpu_thr (m_s m)) 100)).
+Definition mid_thr_mem (m : minput) : Z := mul_ratio (m_cap_mem m) (f_pct (dflt (ms_mem_thr (m_s m)) 100)).
+Definition mid_unused_cpu (m : minput) : Z := if m_usage_valid m then m_cap_cpu m - m_used_cpu m else 0.
+Definition mid_unused_mem (m : minput) : Z := if m_usage_valid m then m_cap_mem m - m_used_mem m else 0.
+Definition mid_bound_cpu (m : minput) : Z :=
+  if ms_static (m_s m) then mul_ratio (m_cap_cpu m) (f_pct (dflt (ms_static_cpu (m_s m)) 0))
+  else Z.max 0 (Z.min (if m_recl m then m_recl_cpu m else 0) (mid_unused_cpu m))
+       + mul_ratio (Z.max 0 (m_cap_cpu m - m_reserved_cpu m - prod_alloc_cpu (m_pods m)))
+                   (f_pct (dflt (ms_unalloc (m_s m)) 0)).
+Definition mid_bound_mem (m : minput) : Z :=
+  if ms_static (m_s m) then mul_ratio (m_cap_mem m) (f_pct (dflt (ms_static_mem (m_s m)) 0))
+  else Z.max 0 (Z.min (if m_recl m then m_recl_mem m else 0) (mid_unused_mem m))
+       + mul_ratio (Z.max 0 (m_cap_mem m - m_reserved_mem m - prod_alloc_mem (m_pods m)))
+                   (f_pct (dflt (ms_unalloc (m_s m)) 0)).
+
+Definition mid_ok (thr bound x : Z) : Prop := 0 <= x /\ x <= thr /\ x <= bound.
+(* 0 ok; 1 negative; 3 above the threshold percentage; 2 above the reclaimable bound *)
+Definition mid_dim_code (thr bound x : Z) : Z :=
+  if x <? 0 then 1 else if thr <? x then 3 else if bound <? x then 2 else 0.
+Definition mid_pub_code (thr bound x : Z) : Z :=
+  if x =? -1 then 0 else let c := mid_dim_code thr bound x in if c =? 0 then 0 else 30 + c.
+
+Definition mstale (m : minput) : bool := is_degraded (ms_degrade (m_s m)) (m_age m).
+Definition mid_code (m : minput) (obs : list Z) : Z :=
+  if eq_listZ obs withdrawn then 0
+  else match obs with
+  | [h; pc; pm; c; mm] =>
+      if negb (h =? 0) then 9
+      else if mstale m then 10
+      else if negb (mid_dim_code (mid_thr_cpu m) (mid_bound_cpu m) c =? 0)
+           then mid_dim_code (mid_thr_cpu m) (mid_bound_cpu m) c
+      else if negb (mid_dim_code (mid_thr_mem m) (mid_bound_mem m) mm =? 0)
+           then mid_dim_code (mid_thr_mem m) (mid_bound_mem m) mm
+      else if negb (mid_pub_code (mid_thr_cpu m) (mid_bound_cpu m) pc =? 0)
+           then mid_pub_code (mid_thr_cpu m) (mid_bound_cpu m) pc
+      else mid_pub_code (mid_thr_mem m) (mid_bound_mem m) pm
+  | _ => 9
+  end.
+Definition mid_holds (m : minput) (obs : list Z) : Prop :=
+  obs = withdrawn \/
+  exists pc pm c mm, obs = [0; pc; pm; c; mm] /\ mstale m = false /\
+    mid_ok (mid_thr_cpu m) (mid_bound_cpu m) c /\ mid_ok (mid_thr_mem m) (mid_bound_mem m) mm /\
+    (pc = -1 \/ mid_ok (mid_thr_cpu m) (mid_bound_cpu m) pc) /\
+    (pm = -1 \/ mid_ok (mid_thr_mem m) (mid_bound_mem m) pm).
+
+(* what IsColocationStrategyValid guarantees for the mid percentages (nil is -1) *)
+Definition minput_wf (m : minput) : bool :=
+  (0 <=? m_cap_cpu m) && (0 <=? m_cap_mem m).
